@@ -9,6 +9,10 @@ oracle  : (a) unterminated data: by the time more than limit + |sep| + one read 
               a limit error has been raised; the buffered path never offers more than `limit` bytes of buffer;
           (b) a frame safely under the limit (table of DESIGN.md C07) is delivered, never rejected for its size;
           (c) a frame too large to be held (payload > limit + |sep| + largest read) is never delivered whole.
+session 3: file toys with every expected_load_error set (narrow, Exception, tuples holding Exception / DeserializeError: the wide
+          ones cover the library's own LimitOverrunError), peeking and read-ahead loaders, debug=True; `follow` = number of small
+          frames pipelined behind the frame under test (several documents in one read); the drive loop has an item budget
+          (`loop` = an error that consumes nothing is reported for ever); delivered packets are retained and re-rendered.
 """
 from __future__ import annotations
 
@@ -433,7 +437,7 @@ def after_batch() -> None:
 
 # ---- raw JSON framer ----
 def extra_coverage(stats) -> dict:
-    return {"model_runs_by_framer": dict(sorted(sers.MODEL_RUNS.items()))}
+    return {"model_runs_by_framer": dict(sorted(sers.MODEL_RUNS.items())), "retained_packets": dict(sd.RETAINED)}
 # ---- end raw JSON framer ----
 
 
